@@ -27,11 +27,12 @@ const (
 	lvlCustGated = slog.Level(32) // registered, gated like Error but NOT for the error device: normal writers
 	// the error device is a property of the registration alone: not of the numeric value (beyond 63, negative) and not of
 	// what the level is gated as
-	lvlCustErrBig  = slog.Level(1000) // registered for the error device, value above any machine word of flags
-	lvlCustErr64   = slog.Level(64)   // registered for the error device
-	lvlCustErrNeg  = slog.Level(-5)   // registered for the error device, negative value
-	lvlCustErrInfo = slog.Level(33)   // registered for the error device although it is gated like Info
-	lvlCustPlain65 = slog.Level(65)   // registered, normal device
+	lvlCustErrBig   = slog.Level(1000) // registered for the error device, value above any machine word of flags
+	lvlCustErr64    = slog.Level(64)   // registered for the error device
+	lvlCustErrNeg   = slog.Level(-5)   // registered for the error device, negative value
+	lvlCustErrInfo  = slog.Level(33)   // registered for the error device although it is gated like Info
+	lvlCustPlain65  = slog.Level(65)   // registered, normal device
+	lvlCustPlainNeg = slog.Level(-21)  // registered, NEGATIVE value, normal device
 )
 
 type fdCapture struct {
@@ -355,6 +356,8 @@ func newC03env(configureDefault bool) (*c03env, error) {
 	_ = slog.RegisterLevel(lvlCustErr64, "custerr64", slog.RegWithTreatedAsLevel(slog.WarnLevel), slog.RegWithPrintToErrorDevice(true))
 	_ = slog.RegisterLevel(lvlCustErrNeg, "custerrneg", slog.RegWithTreatedAsLevel(slog.WarnLevel), slog.RegWithPrintToErrorDevice(true))
 	_ = slog.RegisterLevel(lvlCustErrInfo, "custerrinfo", slog.RegWithTreatedAsLevel(slog.InfoLevel), slog.RegWithPrintToErrorDevice(true))
+	// a NEGATIVE value that is not registered for the error device (an application's AUDIT level above Panic): normal class
+	_ = slog.RegisterLevel(lvlCustPlainNeg, "custplainneg", slog.RegWithTreatedAsLevel(slog.InfoLevel))
 	_ = slog.RegisterLevel(lvlCustPlain65, "custplain65", slog.RegWithTreatedAsLevel(slog.InfoLevel), slog.RegWithPrintToErrorDevice(false))
 	// registrations that are REFUSED (value or title in use), each asking for the error device: they leave no trace
 	_ = slog.RegisterLevel(slog.InfoLevel, "info-again", slog.RegWithPrintToErrorDevice(true))
@@ -513,7 +516,7 @@ var c03forms = func() []c03form {
 }()
 
 var probeSevs = []slog.Level{slog.InfoLevel, slog.ErrorLevel, slog.DebugLevel, slog.WarnLevel, slog.TraceLevel, slog.PanicLevel, slog.AlwaysLevel, slog.FatalLevel,
-	slog.OKLevel, slog.FailLevel, slog.SuccessLevel, lvlCustErr, lvlCustPlain, lvlCustGated, slog.Level(88), slog.Level(89), lvlCustErrBig, lvlCustErr64, lvlCustErrNeg, lvlCustErrInfo, lvlCustPlain65}
+	slog.OKLevel, slog.FailLevel, slog.SuccessLevel, lvlCustErr, lvlCustPlain, lvlCustGated, slog.Level(88), slog.Level(89), lvlCustErrBig, lvlCustErr64, lvlCustErrNeg, lvlCustErrInfo, lvlCustPlain65, lvlCustPlainNeg, slog.Level(-88)}
 
 type c03viol struct{ clause, detail string }
 
